@@ -46,6 +46,7 @@ ASSUMPTIONS = [
 ]
 
 GUARD = 120.0  # seconds; deadlock guard only -> harness error, never a verdict
+GRACE = 1.5    # seconds the controller waits for the pool to start the participants it is expected to start
 
 
 class HarnessDeadlock(RuntimeError):
@@ -124,11 +125,19 @@ def drive(gate: Gate, fn, eff: int, prio):
 
             while True:
                 with gate.cv:
-                    ok = gate.cv.wait_for(settled, GUARD)
-                    if not ok or gate.deadlock:
-                        raise HarnessDeadlock(f"controller: pool did not settle (started={gate.started}, released={released}, "
-                                              f"eff={eff}, n={n}, {gate.deadlock})")
+                    # GRACE is a scheduling decision, not a verdict: if the pool does not start the participants the
+                    # documented pool size allows (e.g. because the code under test dropped or cancelled a queued task),
+                    # go on releasing the ones that ARE running; the oracle then sees which tasks never ran.
+                    ok = gate.cv.wait_for(settled, GRACE)
+                    if gate.deadlock:
+                        raise HarnessDeadlock(f"controller: {gate.deadlock}")
                     running = [i for i in dict.fromkeys(gate.started) if i not in released]
+                    if not ok and not running and not gate.caller_done:
+                        ok = gate.cv.wait_for(settled, GUARD)
+                        if not ok:
+                            raise HarnessDeadlock(f"controller: pool did not settle (started={gate.started}, released={released}, "
+                                                  f"eff={eff}, n={n})")
+                        running = [i for i in dict.fromkeys(gate.started) if i not in released]
                     done = gate.caller_done
                 if not running:
                     if done:
